@@ -285,6 +285,30 @@ def validate_trace(sysd, prop, trace_paths, workdir, timeout=1200, par=6, chunk_
     return results
 
 
+# ----------------------------------------------------------------------------------- Apalache
+def apalache_one(args):
+    module, inv, workdir, timeout = args
+    outdir = os.path.join(workdir, "apa-" + inv)
+    rc, out, dt = run(["apalache-mc", "check", "--length=0", "--inv=" + inv, "--out-dir=" + outdir, os.path.basename(module)],
+                      cwd=os.path.dirname(module), timeout=timeout)
+    shutil.rmtree(outdir, ignore_errors=True)
+    if "The outcome is: NoError" in out:
+        res = "proved"
+    elif "The outcome is: Error" in out:
+        res = "refuted"
+    elif rc == 124:
+        res = "timeout"
+    else:
+        res = "failed"
+    return inv, res, round(dt, 1)
+
+
+def apalache(module, invs, workdir, timeout=300, par=4):
+    """Unbounded-integer obligations (SMT). Returns {inv: (result, seconds)}."""
+    with concurrent.futures.ThreadPoolExecutor(max_workers=par) as ex:
+        return {inv: (res, dt) for inv, res, dt in ex.map(apalache_one, [(module, i, workdir, timeout) for i in invs])}
+
+
 # ----------------------------------------------------------------------------------- replay files
 def cut_run(chunk_path, at, dest):
     """Cut the run (reset .. next reset) containing event number `at` (1-based) out of a chunk."""
